@@ -26,9 +26,13 @@ const (
 	KBytes  = "bytes"
 	KLK     = "lk"     // user type implementing mast.Key with a generated layer table
 	KStruct = "struct" // plain struct, ordered and layered by its marshaled bytes
+	// narrow integer types have no case of their own in the default order: like structs they are ordered (and
+	// layered) by their marshaled form, i.e. as decimal text ("10" < "100" < "9")
+	KInt32  = "int32"
+	KUint16 = "uint16"
 )
 
-var KeyKinds = []string{KInt, KInt64, KUint, KUint64, KString, KBytes, KLK, KStruct}
+var KeyKinds = []string{KInt, KInt64, KUint, KUint64, KString, KBytes, KLK, KStruct, KInt32, KUint16}
 
 const (
 	VInt    = "int"
@@ -337,6 +341,10 @@ func (c Config) ZeroKey() interface{} {
 		return LK{}
 	case KStruct:
 		return SK{}
+	case KInt32:
+		return int32(0)
+	case KUint16:
+		return uint16(0)
 	}
 	panic("bad key kind " + c.Key)
 }
@@ -477,6 +485,10 @@ func (c Config) buildBigPool() []interface{} {
 			out = append(out, []byte{byte(i), byte(i >> 8), 0xfe})
 		case KStruct:
 			out = append(out, SK{A: i % 5, B: fmt.Sprintf("b%d", i)})
+		case KInt32:
+			out = append(out, int32(i-c.Big/3))
+		case KUint16:
+			out = append(out, uint16(i*3))
 		default:
 			panic("bad key kind for a big pool: " + c.Key)
 		}
@@ -564,6 +576,14 @@ func (c Config) buildPool() []interface{} {
 				return SK{A: i % 7, B: fmt.Sprintf("b<%d>&", i)}
 			}
 			return SK{A: i % 7, B: fmt.Sprintf("b%d", i)}
+		case KInt32:
+			// decimal texts of different lengths and signs: numeric and textual order disagree
+			if i%3 == 2 {
+				return int32(-(i/3 + 1) * 7)
+			}
+			return int32(i*i/3 + i)
+		case KUint16:
+			return uint16(i*37 + i/5)
 		}
 		panic("bad key kind")
 	}
